@@ -303,6 +303,25 @@ def pmap(fn, items, nchunks=NPROC):
     return [x for r in res for x in r]
 
 
+def run_model_big(runner, cases):
+    """run_model with an unlimited native stack: the extracted list functions are not tail recursive and a traced
+    render can be tens of thousands of observations long"""
+    return run_lines(["bash", "-c", "ulimit -s unlimited 2>/dev/null || ulimit -s 1000000; exec \"$0\" \"$1\"", os.path.join(EXTRACT, "C05", "mjmodel"), runner], cases)
+
+
+def rec_cost(items):
+    """recursion calls one execution of the body performs (the render grows like cost ^ depth of the tree)"""
+    n = 0
+    for it in items:
+        if it[0] == "call":
+            n += 2 if it[1] == "via" else 1
+        elif it[0] == "block":
+            n += rec_cost(it[2])
+        elif it[0] == "forn":
+            n += it[1] * (rec_cost(it[3]) + rec_cost(it[4]))
+    return n
+
+
 def has_loop_call(body):
     """a generated AST calls loop(): the reference interpreter has no recursion calls"""
     return "loop(" in proggen.body_src(body)
@@ -372,9 +391,12 @@ def main():
         rec_cases, rec_slots = [], []
         for label, body, has_else, after in fam:
             ctxs, slots = [], []
+            cost = rec_cost(body)
             for ti, t in enumerate(trees):
                 if after and not t:
                     continue
+                if (cost > 2 and ti >= 4) or (cost > 4 and ti >= 3):
+                    continue        # deep trees only for bodies whose render stays small
                 t2 = trees[(ti + 1) % len(trees)] if after else None
                 ctxs.append({"tree": t, "tree2": t2 or [], "lt": "<"})
                 rec_cases.append(rec_case(body, has_else, t, t2))
@@ -564,7 +586,7 @@ def main():
                 tcases.append(enc + tail)
                 tmeta.append((ti, ci, si, code, tail, [ai for ai, _ in acts]))
         tlog("trace cases built: %d" % len(tcases))
-        tver = pmap(lambda c: run_model("C05", "c05-trace", c), tcases)
+        tver = pmap(lambda c: run_model_big("c05-trace", c), tcases)
         tlog("trace replay done")
         for meta, v in zip(tmeta, tver):
             if v[:1] == [1]:
@@ -575,7 +597,7 @@ def main():
             alts = list(absinstr.typings(code))[1:]
             ok = False
             if alts:
-                ok = any(r[:1] == [1] for r in run_model("C05", "c05-trace", [absinstr.encode(code, t) + tail for t in alts]))
+                ok = any(r[:1] == [1] for r in run_model_big("c05-trace", [absinstr.encode(code, t) + tail for t in alts]))
             if ok:
                 hist["trace_streams_replayed_ok"] += 1
             else:
